@@ -508,6 +508,24 @@ class VList(_Shared):
         self._sync('extend')
         self._items.extend(data)
 
+    def insert(self, i, x):
+        data = pickle.dumps(x)
+        self._sync('insert')
+        self._items.insert(i, data)
+
+    def __setitem__(self, i, x):
+        data = [pickle.dumps(y) for y in x] if isinstance(i, slice) else pickle.dumps(x)
+        self._sync('setitem')
+        self._items[i] = data
+
+    def __delitem__(self, i):
+        self._sync('delitem')
+        del self._items[i]
+
+    def pop(self, i=-1):
+        self._sync('pop')
+        return pickle.loads(self._items.pop(i))
+
     def __len__(self):
         self._sync('len')
         return len(self._items)
@@ -745,33 +763,39 @@ def run_controller(ctl, log_fd, steps, timeout, result_path):
         fds.append(fd)
 
     ok, err = True, None
-    try:
-        for k, st in enumerate(steps):
-            deadline = time.time() + timeout
-            if not wait_for(f'at {st["gate"]}', deadline):
-                ok, err = False, f'step {k}: participant never arrived at gate {st["gate"]} (log so far: {seen})'
-                break
-            seen.append(f'>> {st["gate"]}')
-            open_gate(st['gate'])
-            if st.get('confirm') and not wait_for(st['confirm'], deadline):
-                ok, err = False, f'step {k}: no confirmation {st["confirm"]!r} after opening {st["gate"]} (log: {seen})'
-                break
-    finally:
-        if not ok:
-            for name in os.listdir(ctl):
-                if name.startswith('g.'):
-                    open_gate(name[2:])
-        # collect whatever is still written for a short while (late arrivals are part of the observation)
-        end = time.time() + (0.05 if ok else 1.0)
-        while pump(end):
-            pass
+    for k, st in enumerate(steps):
+        deadline = time.time() + timeout
+        if not wait_for(f'at {st["gate"]}', deadline):
+            ok, err = False, f'step {k}: participant never arrived at gate {st["gate"]} (log so far: {seen})'
+            break
+        seen.append(f'>> {st["gate"]}')
+        open_gate(st['gate'])
+        if st.get('confirm') and not wait_for(st['confirm'], deadline):
+            ok, err = False, f'step {k}: no confirmation {st["confirm"]!r} after opening {st["gate"]} (log: {seen})'
+            break
+
+    def report():
         with open(result_path + '.tmp', 'w') as f:
             json.dump(dict(ok=ok, error=err, log=seen), f)
         os.replace(result_path + '.tmp', result_path)
-    return ok
+
+    if ok:
+        end = time.time() + 0.05        # late arrivals are part of the observation
+        while pump(end):
+            pass
+        report()
+        return True
+    # failure: open every gate so that the system under test can drain, and stay alive (a FIFO forgets what was
+    # written to it once the last descriptor is closed) until the parent terminates us
+    for name in os.listdir(ctl):
+        if name.startswith('g.'):
+            open_gate(name[2:])
+    report()
+    while True:
+        pump(time.time() + 1.0)
 
 
-def fork_controller(ctl, log_fd, steps, timeout=20.0):
+def fork_controller(ctl, log_fd, steps, timeout=45.0):
     """Fork the controller; returns (pid, result_path)."""
     result_path = os.path.join(ctl, 'result.json')
     pid = os.fork()
@@ -786,8 +810,27 @@ def fork_controller(ctl, log_fd, steps, timeout=20.0):
     return pid, result_path
 
 
-def join_controller(pid, result_path, fds=()):
-    os.waitpid(pid, 0)
+def join_controller(pid, result_path, fds=(), grace=10.0):
+    """Called after the system under test returned.  A successful controller exits by itself; a failed one
+    keeps the gates open until it is terminated here."""
+    import signal
+    end = time.time() + grace
+    while True:
+        done, _ = os.waitpid(pid, os.WNOHANG)
+        if done:
+            break
+        failed = False
+        if os.path.exists(result_path):
+            try:
+                with open(result_path) as f:
+                    failed = not json.load(f)['ok']
+            except (OSError, ValueError):
+                failed = False
+        if failed or time.time() > end:
+            os.kill(pid, signal.SIGKILL)
+            os.waitpid(pid, 0)
+            break
+        time.sleep(0.005)
     for fd in fds:
         try:
             os.close(fd)
